@@ -167,6 +167,62 @@ impl C09 {
     }
   }
 
+  /// a = [date index, second of day, k, read_first]: a lunar hour reached by stepping (after its source hour's views were
+  /// read) has exactly the pillars / eight characters of the instant 2k hours later
+  fn eval_stepped(&self, env: &Env, out: &mut Out, case: &Case) {
+    use tyme4rs::tyme::Tyme;
+    let c = cal();
+    let i = case.a[0] as usize;
+    let s = case.a[1].clamp(0, 86399);
+    let kk = case.a[2].clamp(-30, 30);
+    let read_first = case.a[3] == 1;
+    let target = i as i64 * 86400 + s + 7200 * kk;
+    if target < 0 || target >= (c.year_start[9999] as i64) * 86400 {
+      out.skip("stepped_hour_outside_range");
+      return;
+    }
+    let (ti, tsec) = ((target / 86400) as usize, target % 86400);
+    let (y, _, _) = c.ymd(ti);
+    let ts = ensure(y - 1, y + 1);
+    let (exp, amb) = match expected_chars(&ts, ti, tsec) {
+      Some(x) => x,
+      None => return,
+    };
+    out.eval("stepped");
+    let same_day = ti == i;
+    if same_day && kk != 0 && read_first {
+      out.nontrivial("stepped", &case.a);
+      out.class("stepped_within_the_same_day_after_reading_the_source");
+    }
+    let k = [("jdn", c.jdn(i)), ("s", s), ("k", kk), ("read_first", read_first as i64)];
+    let t = stime(c, i, s);
+    let r = guard(|| {
+      let h = t.get_lunar_hour();
+      if read_first {
+        let _ = (h.get_sixty_cycle_hour(), h.get_twelve_star(), h.get_solar_time());
+      }
+      let g = h.next(kk as isize);
+      let e = g.get_eight_char();
+      let sh = g.get_sixty_cycle_hour();
+      ([e.get_year().get_index() as i64, e.get_month().get_index() as i64, e.get_day().get_index() as i64, e.get_hour().get_index() as i64], [sh.get_year().get_index() as i64, sh.get_month().get_index() as i64, sh.get_day().get_index() as i64, sh.get_sixty_cycle().get_index() as i64], g.get_sixty_cycle().get_index() as i64, ymdhms(&g.get_solar_time()), ymdhms(&sh.get_solar_time()))
+    });
+    match r {
+      Ok((e, p, lhp, gt, sht)) => {
+        let texp = { let (yy, mm, dd) = c.ymd(ti); (yy, mm, dd, tsec / 3600, tsec / 60 % 60, tsec % 60) };
+        if gt != texp || sht != texp {
+          out.fail(env, viol("stepped", "stepped_hour_instant", case, &k, format!("lunar hour of {} .next({})", tfmt(c, i, s), kk), fmt_time(texp), format!("solar time {} / instant view {}", fmt_time(gt), fmt_time(sht))));
+          return;
+        }
+        if (e != exp || p != exp || lhp != exp[3]) && !amb {
+          out.fail(env, viol("stepped", "stepped_hour_pillars", case, &k, format!("lunar hour of {} {}.next({}) = {}", tfmt(c, i, s), if read_first { "(views read first) " } else { "" }, kk, fmt_time(texp)), chars_name(&exp), format!("eight chars {} / instant view {} / lunar hour pillar {}", chars_name(&e), chars_name(&p), pillar_name(lhp))));
+        }
+      }
+      Err(e) => {
+        out.fail(env, viol("stepped", "panics", case, &k, format!("lunar hour of {} .next({})", tfmt(c, i, s), kk), chars_name(&exp), e));
+      }
+    }
+  }
+
   /// a = [date index, second of day, lo offset (years before year(t)), span]
   fn eval_inverse(&self, env: &Env, out: &mut Out, case: &Case) {
     let c = cal();
@@ -289,7 +345,7 @@ impl Prop for C09 {
   }
   fn meta(&self, _env: &Env) -> Meta {
     Meta {
-      rule: "Generators: (a) `hour`: all 60 day pillars x 24 hours (exhaustive, on 60 consecutive dates from 2000-01-01) and `hour_rand`: proptest (date, hour, minute, second): hour branch floor((h+1)/2) mod 12, hour stem by Five Rats from the day stem, from 23:00 the next day's pillar, on LunarHour and SixtyCycleHour, index in day; (b) `compose`: proptest instants 0001..9998 (hour edges and 23:00 over-weighted): eight characters of both views == the four pillars == an oracle (year/month from the latest Jie instant, day (JDN+49) mod 60 with the 23:00 roll, hour by Five Rats); (c) `inverse`: proptest (instant t, lo <= year(t) <= hi, hi-lo <= 120; 30% of t in January/early February, 40% with lo == year(t)): ec = chars(t); every instant returned by ec.get_solar_times(lo,hi) has ec (soundness); unless the double-hour of t contains a Jie instant, changes characters inside, or straddles the year range (skipped, counted), some returned instant lies inside that double-hour (completeness). Non-trivial: hours 23, 0 and odd hours; instants at hour 23 or before Lichun; inverse cases outside the Zi hour, before Lichun, or with lo == year(t). Distinct = distinct inputs.".into(),
+      rule: "Generators: (a) `hour`: all 60 day pillars x 24 hours (exhaustive, on 60 consecutive dates from 2000-01-01) and `hour_rand`: proptest (date, hour, minute, second): hour branch floor((h+1)/2) mod 12, hour stem by Five Rats from the day stem, from 23:00 the next day's pillar, on LunarHour and SixtyCycleHour, index in day; (b) `compose`: proptest instants 0001..9998 (hour edges and 23:00 over-weighted): eight characters of both views == the four pillars == an oracle (year/month from the latest Jie instant, day (JDN+49) mod 60 with the 23:00 roll, hour by Five Rats); (b') `stepped`: proptest (instant from AD 25, k in -5..5 / -30..30, read-first flag): the LunarHour reached by next(k) — half of the time after the source hour's memoised views were read — has the instant, pillars and eight characters of the instant 2k hours later; (c) `inverse`: proptest (instant t, lo <= year(t) <= hi, hi-lo <= 120; 30% of t in January/early February, 40% with lo == year(t)): ec = chars(t); every instant returned by ec.get_solar_times(lo,hi) has ec (soundness); unless the double-hour of t contains a Jie instant, changes characters inside, or straddles the year range (skipped, counted), some returned instant lies inside that double-hour (completeness). Non-trivial: hours 23, 0 and odd hours; instants at hour 23 or before Lichun; inverse cases outside the Zi hour, before Lichun, or with lo == year(t). Distinct = distinct inputs.".into(),
       assumptions: vec![
         "Jie instants are the library's own; characters of t are the library's own (the property defines the inverse search relative to them)".into(),
         "The skip rule for double-hours containing a Jie is the one stated in the property's quantifier".into(),
@@ -323,6 +379,10 @@ impl Prop for C09 {
         let total: u32 = env.tier.pick(32_000, 640_000);
         prop_run(env, out, "compose", total / nshards as u32, shard as u64, instant_strategy(hi_idx), &ev);
         out.set_exhaustive("compose", false);
+        let lo_idx = c.year_start[25] as i64;
+        let strat = (lo_idx..hi_idx - 5, 0i64..86400, prop_oneof![3 => -5i64..=5, 1 => -30i64..=30], 0i64..2).prop_map(|(i, s, k, r)| Case::ints(&[i, s, k, r]));
+        prop_run(env, out, "stepped", total / 2 / nshards as u32, 40 + shard as u64, strat, &ev);
+        out.set_exhaustive("stepped", false);
       }
       "inverse" => {
         if shard == 0 {
@@ -348,6 +408,7 @@ impl Prop for C09 {
     match sub {
       "hour" | "hour_rand" => self.eval_hour(env, out, sub, case),
       "compose" => self.eval_compose(env, out, case),
+      "stepped" => self.eval_stepped(env, out, case),
       "inverse" => self.eval_inverse(env, out, case),
       _ => panic!("unknown sub-check {}", sub),
     }
